@@ -124,6 +124,11 @@ class _CenterManifoldDynamicsService(_DynamicsServiceBase):
         """
         cache_key = self.make_key("hamiltonian", degree)
 
+        # Reading the Hamiltonian of another degree makes that degree current -
+        # on a cache hit as well, so the effect does not depend on the history
+        if degree != self._degree:
+            self.degree = degree
+
         def _factory():
             return self.pipeline_for_degree(degree).get_hamiltonian("center_manifold_real")
         
